@@ -3,6 +3,7 @@ import random
 
 import impl
 import leanio
+import probes
 import proggen as P
 from core import Verdict
 from props import layout_base as LB
@@ -14,7 +15,7 @@ RULE = ('generated programs (sparse maps via .org / zones, lines longer than a l
         'non-trivial = assembled with >= 2 byte lines and a gap or a muted line or a line longer than 6 bytes')
 EXPLANATION = ('Theorems in Props/C16.lean: decoders invert the reference encoders (Intel HEX records incl. checksum and 64K '
                'extension, compact hex under EveryGapHasOrg, listing rows), muted lines absent. Correspondence: decoded real '
-               'output vs the image map; two address windows (-s inside a statement, -e) of the image against the same map. KNOWN-FINDING minhex-gap-without-org is reported where its class predicate holds.')
+               'output vs the image map; the listing row helper against `chunkRows` at function level; two address windows (-s inside a statement, -e) of the image against the same map. KNOWN-FINDING minhex-gap-without-org is reported where its class predicate holds.')
 ASSUMPTIONS = ['the third-party intelhex writer is not modelled; its output is only decoded',
                'listing instruction/comment columns are ignored (only line/address/bytes columns are decoded)']
 FORMATS = ['intel_hex', 'hex', 'minhex', 'listing']
@@ -88,11 +89,22 @@ def add_windows(cases):
     return cases
 
 
+def gen_chunks(rng):
+    """function-level tie of the listing row model (`chunkRows`, `encListingLine`, `mergePRows`) to
+    `ListingPrettyPrinter._generate_bytecode_line_string`: bytes of one statement, bytes per row"""
+    k = rng.choice([1, 2, 3, 6, 6, 6, 8, 16])
+    n = rng.choice([0, 1, k - 1, k, k + 1, 2 * k, 2 * k + 1, 3 * k - 1, rng.randint(0, 40)])
+    return {'kind': 'chunks', 'k': k, 'bs': [rng.choice([0, 0x20, 0xFF, rng.randint(0, 255)]) for _ in range(max(0, n))]}
+
+
 def generate(rng, tier):
-    return add_windows([gen_case(rng, tier) for _ in range(220 if tier == 'quick' else 5000)])
+    n = 220 if tier == 'quick' else 5000
+    return add_windows([gen_case(rng, tier) for _ in range(n)]) + [gen_chunks(rng) for _ in range(n // 4)]
 
 
 def to_impl(case):
+    if case.get('kind') == 'chunks':
+        return probes.call('listing_chunks', case['bs'], case['k'])
     isa = P.make_isa(case['cfg'])
     files = LB.render(case)
     out = [impl.compile_case(isa, files, fill=0), impl.compile_case(isa, files, fill=255)]
@@ -105,10 +117,34 @@ def to_impl(case):
 
 
 def to_model(case):
+    if case.get('kind') == 'chunks':
+        return {'op': 'chunks', 'bs': case['bs'], 'k': case['k']}
     return P.to_model_request(case['cfg'], case['files'], 0, None, 0)
 
 
+def judge_chunks(case, ir, mr):
+    tags = ['listing-rows']
+    det = f'bytes={case["bs"]} per row={case["k"]}'
+    if ir.get('status') != 'ok' or 'rows' not in (ir.get('ret') or {}):
+        return {'verdict': Verdict.CORR, 'tags': tags, 'detail': 'the row helper of the listing printer could not be called: '
+                + str(ir.get('msg'))[:300] + '; ' + det}
+    real = ir['ret']['rows']
+    try:
+        dec = [[int(w, 16) for w in r.split()] for r in real]
+    except ValueError:
+        return {'verdict': Verdict.VIOLATION, 'tags': tags, 'detail': f'listing rows {real!r} are not hex bytes; ' + det}
+    flat = [b for r in dec for b in r]
+    if flat != case['bs'] or any(len(r) == 0 or len(r) > case['k'] for r in dec):
+        return {'verdict': Verdict.VIOLATION, 'tags': tags,
+                'detail': f'the listing rows {real!r} of one statement do not carry its bytes in order, at most {case["k"]} per row; ' + det}
+    if dec != mr['rows'] or mr['merged'] != [case['bs']] or any(len(r) != 3 * case['k'] for r in real):
+        return {'verdict': Verdict.CORR, 'tags': tags, 'detail': f'real rows {real!r} model rows {mr["rows"]} merged {mr["merged"]}; ' + det}
+    return {'verdict': Verdict.OK, 'nontrivial': len(case['bs']) > case['k'], 'tags': tags, 'detail': det}
+
+
 def judge(case, irs, mr):
+    if case.get('kind') == 'chunks':
+        return judge_chunks(case, irs, mr)
     tags = []
     det = f'asm={LB.render(case)["main.asm"]!r}'[:1200]
     b0 = impl.fbytes(irs[0], 'out.bin') if irs[0]['status'] == 'ok' else None
